@@ -153,10 +153,21 @@ func c05Gen(r *rand.Rand, n int, tier string) []string {
 				ops = append(ops, "ep:"+hxs(x)+":"+hxs(x)+":"+nt())
 			case 1: // delete the root
 				ops = append(ops, "ep:"+hxs("R")+":"+hxs(pick(r, []string{"", "root"}))+":"+tomb(pick(r, []float64{1, 2, 0.5})))
-			case 2: // NaN hidden in a batch of good points (node points)
-				ops = append(ops, "np:"+hxs(pick(r, chain))+":"+val("4607182418800017408")+"+"+val("nan")+"+"+val("4611686018427387904"))
+			case 2: // NaN hidden in a batch of good points (node points); sometimes in a point that is also tombstoned or carries a text
+				nan := val("nan")
+				switch r.Intn(3) {
+				case 0:
+					nan = fmt.Sprintf("%s,%s,nan,-,%d,1,-,-", hxs("value"), hxs(pick(r, []string{"", "0", "1"})), tick())
+				case 1:
+					nan = fmt.Sprintf("%s,%s,nan,%s,%d,0,-,-", hxs("value"), hxs(pick(r, []string{"", "0", "1"})), hxs("fault"), tick())
+				}
+				ops = append(ops, "np:"+hxs(pick(r, chain))+":"+val("4607182418800017408")+"+"+nan+"+"+val("4611686018427387904"))
 			case 3: // NaN in edge points
-				ops = append(ops, "ep:"+hxs("b")+":"+hxs("a")+":"+val("nan")+"+"+tomb(0))
+				nan := val("nan")
+				if r.Intn(2) == 0 {
+					nan = fmt.Sprintf("%s,-,nan,%s,%d,%d,-,-", hxs("value"), hxs(pick(r, []string{"", "x"})), tick(), r.Intn(2))
+				}
+				ops = append(ops, "ep:"+hxs("b")+":"+hxs("a")+":"+nan+"+"+tomb(0))
 			case 4: // cycle: ancestor placed under a descendant
 				pairs := [][2]string{{"a", "c"}, {"a", "b"}, {"R", "c"}, {"b", "c"}, {"a", "d"}, {"R", "d"}}
 				p := pick(r, pairs)
